@@ -243,7 +243,7 @@ def _bignum_closure(P, paths):
             continue
         for b, cp, fr, t in P.calls(f):
             if cp:
-                g = P.fn(cp) or P.fn(generic_path(cp))
+                g = P.fn(cp) or P.fn(generic_path(cp)) or common.resolve_conversion(P, fr)
                 if g is not None and g.crate == "bignumber" and g.path not in seen:
                     todo.append(g.path)
     return seen
@@ -253,7 +253,7 @@ def arith_base(ctx, iid):
     """Instance `iid`: every bignumber operation used by this run's formulas conforms to its exact-or-abort summary (C08.S, C08.R1)."""
     from .rules import c08
     P = ctx.P
-    inst = ctx.inst(iid, "arithmetic base: the 256-bit operations these formulas use conform to their exact-or-abort reference summaries (shared with C08.S / C08.R1)", floor=1)
+    inst = ctx.inst(iid, "arithmetic base: the 256-bit operations these formulas use conform to their exact-or-abort reference summaries, their zero tests and width conversions are exact (shared with C08.S / R1 / R4 / Z)", floor=1)
     used = set()
     for T in getattr(P, "_translators", [])[ctx._tr_mark:]:
         used |= T.used_bignum
@@ -266,7 +266,7 @@ def arith_base(ctx, iid):
         sub = type(ctx)("C08", P)
         sub.P_release = ctx.P_release
         c08.run(sub)
-        cache = [(i.id, f) for i in sub.instances if i.id in ("C08.S", "C08.R1") for f in i.failures]
+        cache = [(i.id, f) for i in sub.instances if i.id in ("C08.S", "C08.R1", "C08.R4", "C08.Z") for f in i.failures]
         P._c08_cache = cache
     for cid, f in cache:
         if f["fn"] in clo or f["fn"] == "-":
